@@ -59,6 +59,11 @@ static parsec_datatype_t TY(int t) { return t == NOTYPE ? PARSEC_DATATYPE_NULL :
 int parsec_type_match(parsec_datatype_t a, parsec_datatype_t b) { return a == b ? PARSEC_SUCCESS : PARSEC_ERROR; }   /* as datatype_mpi.c */
 
 /* ---- environment */
+struct ompi_predefined_communicator_t { char opaque[8]; };
+struct ompi_predefined_communicator_t ompi_mpi_comm_world;
+int MPI_Pack_size(int incount, MPI_Datatype datatype, MPI_Comm comm, int *size) { (void)datatype; (void)comm; *size = incount * 8; return 0; }   /* PACKED reception only: not reached */
+void parsec_output(int id, const char *fmt, ...) { (void)id; (void)fmt; }
+void parsec_output_verbose(int level, int id, const char *fmt, ...) { (void)level; (void)id; (void)fmt; }
 static void vp_fatal_exit(int status) { (void)status; VASSUME(0); }
 void (*parsec_weaksym_exit)(int status) = vp_fatal_exit;
 int parsec_debug_coredump_on_fatal = 0, parsec_debug_history_on_fatal = 0, parsec_debug_colorize = 0, parsec_debug_rank = 0;
@@ -261,8 +266,14 @@ int main(void)
 #endif
     };
     enum { NALT = sizeof(alt) / sizeof(alt[0]) };
-    int sel = IN_RANGE(0, NALT - 1);
-    for (int a = 0; a < NALT; a++)
+#ifndef ALT_LO
+#define ALT_LO 0
+#endif
+#ifndef ALT_HI
+#define ALT_HI NALT
+#endif
+    int sel = IN_RANGE(ALT_LO, ALT_HI - 1);
+    for (int a = ALT_LO; a < ALT_HI; a++)
         if (sel == a) { scenario(alt[a][0], alt[a][1], alt[a][2], alt[a][3], alt[a][4]); return 0; }   /* the path ends here: no state leaks into the next alternative */
     return 0;
 }
